@@ -308,3 +308,29 @@ Print Assumptions C03_lost_task_rescheduled_at_once.
 Example C03_lost_is_traversable :
   ret_class TLost = RLost /\ enq_class false TLost = CTrav /\ enq_class false TInit = CTrav.
 Proof. vm_compute. repeat split. Qed.
+
+(* Return of an OK task ("case TaskOk": state.done, then Enqueue of every task whose
+   count of outstanding dependencies reached zero — [ret_ready]): every released task
+   that is traversable, has all its dependencies done and is not pending is on the todo
+   list when Return returns.  Proof: the memo-coverage invariant [cov] of
+   C03/Released.v, preserved by every Enqueue. *)
+Theorem C03_released_by_ok_at_once : forall eda g w s t u,
+  wf g -> soof s = false -> stodo s = [] ->
+  ret_class (w t) = ROk ->
+  In u (ret_ready g s t) -> enq_class eda (w u) = CTrav -> deps_done eda g w u ->
+  ~ In u (spending s) ->
+  In u (stodo (ret eda g w s t)).
+Proof. exact released_by_ok_at_once. Qed.
+Print Assumptions C03_released_by_ok_at_once.
+
+(* non-vacuity: task 1 depends on task 0; after Enqueue(1) and Runnable, the
+   completion of 0 releases 1 and Return puts it on todo *)
+Example C03_release_happens :
+  let g := [mkT [] []; mkT [0] []] in
+  let w0 := fun _ : nat => TInit in
+  let s2 := snd (runnable (enqueue_all false g w0 new_state [1])) in
+  let w1 := upd w0 0 TOk in
+  spending s2 = [0] /\ stodo s2 = [] /\ soof s2 = false /\ ret_class (w1 0) = ROk /\
+  ret_ready g s2 0 = [1] /\ enq_class false (w1 1) = CTrav /\
+  stodo (ret false g w1 s2 0) = [1].
+Proof. vm_compute. repeat split. Qed.
